@@ -527,6 +527,8 @@ def main(argv=None):
                 if v["result"] != "unsat":
                     print("   ", v["name"], v["result"], v["backend"], v["seconds"], v.get("detail"), v.get("model"), v.get("native"))
                     rc = 1
+            if r.get("falsification"):
+                print("    falsification", r["falsification"])
             if r.get("conformance"):
                 print("    conformance", {k: (len(v) if isinstance(v, list) else v) for k, v in r["conformance"].items()}, r["conformance"]["mismatches"][:1])
         return rc
